@@ -13,6 +13,15 @@ CLAIMED = {
         "technique": "machine-checked proof in Rocq (Coq 8.16) over an executable Gallina model + differential correspondence check and table regeneration",
         "design": "DESIGN.md §7 C01",
     },
+    "C20": {
+        "text": "Rocq theorem C20_exact: for every code-point string s, the model of the hand-written recogniser accepts s iff s is in the language "
+                "digits+ ('-' digits+)? ('/tcp'|'/udp')? stated declaratively (PortRe); full for the recogniser. Tied to /repo by differential runs "
+                "through the real container converter (exhaustive over a 10-symbol alphabet to length 4/6) and a direct oracle on the implementation's "
+                "output (accept <=> regex, '--expose <trimmed value>' present, rejection quotes the value). The call-site clause is checked by that oracle, not yet by a theorem.",
+        "note": "Trusted: Coq kernel; Spec/PortRe.v; extraction; driver; the Python regex used as search oracle. Unicode trim at the call site is modelled (Model/PortRange.v trim) and compared, not proved.",
+        "technique": "machine-checked proof in Rocq (Coq 8.16): recogniser = regular language, plus differential correspondence check",
+        "design": "DESIGN.md §7 C20",
+    },
 }
 
 ALL = ["C%02d" % i for i in range(1, 21)]
